@@ -44,17 +44,94 @@ pub open spec fn lsp_seq(doc: &LuaDocument, rs: Seq<TextRange>) -> Seq<lsp_types
 }
 /// LSP 3.17 SelectionRange.parent: "The parent selection range containing this range. Therefore `parent.range` must
 /// contain `this.range`." — from link k on
+#[verifier::opaque]
 pub open spec fn growing_from(s: Seq<lsp_types::Range>, k: int) -> bool {
     forall|i: int| 0 <= k <= i && i + 1 < s.len() ==> lsp_inside(#[trigger] s[i], s[i + 1])
 }
-/// property C26 as stated: "selection ranges STRICTLY grow outward"
+/// property C26 as stated: "selection ranges STRICTLY grow outward": every parent contains its child AND differs from
+/// it — from link k on
+#[verifier::opaque]
 pub open spec fn strictly_growing_from(s: Seq<lsp_types::Range>, k: int) -> bool {
     forall|i: int| 0 <= k <= i && i + 1 < s.len() ==> lsp_inside(#[trigger] s[i], s[i + 1]) && s[i] != s[i + 1]
 }
-/// text ranges: each contained in the next, from link k on; all are ranges of the document
-pub open spec fn off_growing_from(doc: &LuaDocument, s: Seq<TextRange>, k: int) -> bool {
-    &&& forall|i: int| 0 <= i < s.len() ==> range_in_doc(doc, #[trigger] s[i])
-    &&& forall|i: int| 0 <= k <= i && i + 1 < s.len() ==> off_inside(#[trigger] s[i], s[i + 1])
+
+// ---- the ancestry characterisation (what the chain IS) ------------------------------------------------------------
+/// range of the n-th ancestor of the token (0: the token itself); meaningful for n <= sp_depth(token)
+pub open spec fn anc_range(token: Syn, n: nat) -> TextRange { sp_range(nth_parent(token, n)->Some_0) }
+/// … as the LSP range the handler returns for it
+pub open spec fn anc_lsp(doc: &LuaDocument, token: Syn, n: nat) -> lsp_types::Range { doc_lsp_range(doc, anc_range(token, n)) }
+/// idx[i] is the ancestor number of chain element i: an existing ancestor between `lo` and the outermost one, whose
+/// range element i is; the numbers STRICTLY increase along the chain (ancestor order, no ancestor used twice)
+pub open spec fn lsp_picks(doc: &LuaDocument, token: Syn, ch: Seq<lsp_types::Range>, idx: Seq<nat>, lo: nat) -> bool {
+    &&& idx.len() == ch.len()
+    &&& forall|i: int| 0 <= i < ch.len() ==> lo <= #[trigger] idx[i] <= sp_depth(token) && nth_parent(token, idx[i]) is Some
+            && ch[i] == anc_lsp(doc, token, idx[i])
+    &&& forall|i: int, j: int| 0 <= i < j < ch.len() ==> #[trigger] idx[i] < #[trigger] idx[j]
+}
+/// the chain `ch` is the ancestry of the token from ancestor number `lo` outward (lo = 0: from the token itself), with
+/// ancestors that span the same text as the entry before them left out:
+///   * it starts with the range of ancestor `lo` and ends with the range of the outermost ancestor (the root);
+///   * every element is the range of an ancestor, in ancestor order (strictly increasing ancestor number);
+///   * no ancestor's range is missing: the range of every ancestor lo..=depth equals some element.
+#[verifier::opaque]
+pub open spec fn is_ancestry(doc: &LuaDocument, token: Syn, ch: Seq<lsp_types::Range>, lo: nat) -> bool {
+    &&& 1 <= ch.len() <= sp_depth(token) + 1 - lo
+    &&& ch[0] == anc_lsp(doc, token, lo)
+    &&& ch.last() == anc_lsp(doc, token, sp_depth(token))
+    &&& exists|idx: Seq<nat>| #[trigger] lsp_picks(doc, token, ch, idx, lo)
+    &&& forall|m: nat| lo <= m <= sp_depth(token) ==> ch.contains(#[trigger] anc_lsp(doc, token, m))
+}
+/// inside a doc description: the chain is some description detail ranges (NOT covered) followed, from position p on, by
+/// the ancestry of the token from its parent (the description node) outward; from p on it grows strictly
+pub open spec fn desc_tail_ok(doc: &LuaDocument, token: Syn, ch: Seq<lsp_types::Range>, p: int) -> bool {
+    &&& 0 <= p < ch.len()
+    &&& is_ancestry(doc, token, ch.subrange(p, ch.len() as int), 1)
+    &&& strictly_growing_from(ch, p)
+}
+
+// ---- the same on the text ranges the ancestor loop collects --------------------------------------------------------
+/// first ancestor number the loop accounts for: the token itself outside a description, its parent inside one
+pub open spec fn sel_lo(token: Syn) -> nat { if in_description(token) { 1 } else { 0 } }
+pub open spec fn all_in_doc(doc: &LuaDocument, rs: Seq<TextRange>) -> bool {
+    forall|i: int| 0 <= i < rs.len() ==> range_in_doc(doc, #[trigger] rs[i])
+}
+/// each range contained in the next — from link p on
+pub open spec fn off_inside_from(rs: Seq<TextRange>, p: int) -> bool {
+    forall|i: int| 0 <= p <= i && i + 1 < rs.len() ==> off_inside(#[trigger] rs[i], rs[i + 1])
+}
+/// each range different from the next — from link p on
+pub open spec fn off_differ_from(rs: Seq<TextRange>, p: int) -> bool {
+    forall|i: int| 0 <= p <= i && i + 1 < rs.len() ==> #[trigger] rs[i] != rs[i + 1]
+}
+pub open spec fn tail_has(rs: Seq<TextRange>, p: int, x: TextRange) -> bool {
+    exists|i: int| p <= i < rs.len() && #[trigger] rs[i] == x
+}
+/// after the ancestors lo..=n were visited: rs[p..] are ranges of ancestors lo..=n in ancestor order (idx = their
+/// numbers), starting with ancestor lo, ending with (the range of) ancestor n, none missing
+pub open spec fn off_picks(token: Syn, rs: Seq<TextRange>, p: int, idx: Seq<nat>, lo: nat, n: nat) -> bool {
+    &&& 0 <= p < rs.len() && idx.len() == rs.len() - p && idx.len() <= n + 1 - lo
+    &&& forall|i: int| 0 <= i < idx.len() ==> lo <= #[trigger] idx[i] <= n && nth_parent(token, idx[i]) is Some
+            && rs[p + i] == anc_range(token, idx[i])
+    &&& forall|i: int, j: int| 0 <= i < j < idx.len() ==> #[trigger] idx[i] < #[trigger] idx[j]
+    &&& idx[0] == lo
+    &&& rs.last() == anc_range(token, n)
+    &&& forall|m: nat| lo <= m <= n ==> tail_has(rs, p, #[trigger] anc_range(token, m))
+}
+/// invariant of the ancestor loop after n ancestors (ghost state: p = where the ancestry starts in `rs`, idx = the
+/// ancestor numbers of rs[p..]); kept opaque in the loop, unfolded in the lemmas below
+#[verifier::opaque]
+pub open spec fn sel_anc_inv(token: Syn, rs: Seq<TextRange>, p: int, idx: Seq<nat>, n: nat) -> bool {
+    n >= sel_lo(token) ==> off_picks(token, rs, p, idx, sel_lo(token), n)
+}
+/// what one round of the ancestor loop does to the ghost state (ranges, p, idx) when it visits ancestor number n + 1
+/// whose range is r: the range is appended unless it equals the last entry; the first ancestor inside a description
+/// becomes the start of the ancestry
+pub open spec fn anc_step(token: Syn, r: TextRange, rs: Seq<TextRange>, p: int, idx: Seq<nat>, n: nat) -> (Seq<TextRange>, int, Seq<nat>) {
+    let skip = rs.len() > 0 && rs.last() == r;
+    let rs2 = if skip { rs } else { rs.push(r) };
+    if n + 1 == sel_lo(token) { (rs2, rs2.len() - 1, seq![(n + 1) as nat]) }
+    else if skip { (rs2, p, idx) }
+    else { (rs2, p, idx.push((n + 1) as nat)) }
 }
 
 /// along the ancestor chain of e: every ancestor is in e's tree and contains its predecessor
@@ -74,13 +151,6 @@ pub proof fn lemma_chain(e: Syn, v: Seq<Syn>, k: int)
     axiom_parent_contains(prev);
     if k > 0 { lemma_chain(e, v, k - 1); }
 }
-/// element i of the chain is the range of the i-th ancestor (0: the token itself)
-pub open spec fn is_ancestry(doc: &LuaDocument, token: Syn, ch: Seq<lsp_types::Range>) -> bool {
-    forall|i: nat| i < ch.len() ==> (#[trigger] nth_parent(token, i) matches Some(a) && ch[i as int] == doc_lsp_range(doc, sp_range(a)))
-}
-pub open spec fn off_is_ancestry(token: Syn, rs: Seq<TextRange>) -> bool {
-    forall|i: nat| i < rs.len() ==> (#[trigger] nth_parent(token, i) matches Some(a) && rs[i as int] == sp_range(a))
-}
 /// monotone positions: containment of text ranges carries over to their LSP ranges
 pub proof fn lemma_inside_lsp(doc: &LuaDocument, a: TextRange, b: TextRange)
     requires sp_doc_ok(doc), range_in_doc(doc, a), range_in_doc(doc, b), off_inside(a, b),
@@ -89,13 +159,21 @@ pub proof fn lemma_inside_lsp(doc: &LuaDocument, a: TextRange, b: TextRange)
     axiom_line_col_monotonic(doc, b.start, a.start);
     axiom_line_col_monotonic(doc, a.end, b.end);
 }
-pub proof fn lemma_growing_lsp(doc: &LuaDocument, s: Seq<TextRange>, k: int)
-    requires sp_doc_ok(doc), off_growing_from(doc, s, k),
-    ensures growing_from(lsp_seq(doc, s), k),
+/// injective positions: ranges of the document with the same LSP range are the same text range (the handler compares
+/// TEXT ranges before it pushes; the property speaks about the LSP ranges it returns)
+pub proof fn lemma_lsp_injective(doc: &LuaDocument, a: TextRange, b: TextRange)
+    requires sp_doc_ok(doc), range_in_doc(doc, a), range_in_doc(doc, b), doc_lsp_range(doc, a) == doc_lsp_range(doc, b),
+    ensures a == b,
 {
-    assert forall|i: int| 0 <= k <= i && i + 1 < s.len() implies lsp_inside(#[trigger] lsp_seq(doc, s)[i], lsp_seq(doc, s)[i + 1]) by {
-        lemma_inside_lsp(doc, s[i], s[i + 1]);
-    }
+    // line, col < 2^32 - 1: the `as u32` of the LSP position loses nothing
+    axiom_line_col_monotonic(doc, a.start, a.end);
+    axiom_line_col_monotonic(doc, b.start, b.end);
+    assert(doc_lsp_pos(doc, a.start) == doc_lsp_pos(doc, b.start));
+    assert(doc_lsp_pos(doc, a.end) == doc_lsp_pos(doc, b.end));
+    assert(sp_pos(doc, a.start).0 == sp_pos(doc, b.start).0 && sp_pos(doc, a.start).1 == sp_pos(doc, b.start).1);
+    assert(sp_pos(doc, a.end).0 == sp_pos(doc, b.end).0 && sp_pos(doc, a.end).1 == sp_pos(doc, b.end).1);
+    axiom_line_col_injective(doc, a.start, b.start);
+    axiom_line_col_injective(doc, a.end, b.end);
 }
 /// one step of the outermost-first construction: wrapping the chain of rs[n-j..n) into a SelectionRange for rs[n-j-1]
 /// gives the chain of rs[n-j-1..n)
@@ -118,78 +196,189 @@ pub proof fn lemma_sel_step(doc: &LuaDocument, rs: Seq<TextRange>, j: int, oldp:
         }
     }
 }
-/// the finished chain: LSP images of the text-range chain; growing where the text ranges grow; the ancestry outside
-/// descriptions
-pub proof fn lemma_sel_done(doc: &LuaDocument, token: Syn, rs: Seq<TextRange>, k: int, ch: Seq<lsp_types::Range>)
-    requires
-        sp_doc_ok(doc), off_growing_from(doc, rs, k),
-        ch == lsp_seq(doc, rs.subrange(0, rs.len() as int)),
+
+/// the ghost state in front of the ancestor loop: outside a description the chain is the token's range, the ancestry
+/// starts at position 0 with ancestor number 0
+pub proof fn lemma_anc_init(token: Syn, rs: Seq<TextRange>)
+    requires !in_description(token) ==> rs =~= seq![sp_range(token)],
     ensures
-        ch.len() == rs.len(), growing_from(ch, k),
-        off_is_ancestry(token, rs) ==> is_ancestry(doc, token, ch),
+        sel_anc_inv(token, rs, if in_description(token) { rs.len() as int } else { 0 }, seq![0nat], 0),
+        off_inside_from(rs, if in_description(token) { rs.len() as int } else { 0 }),
+        off_differ_from(rs, if in_description(token) { rs.len() as int } else { 0 }),
 {
-    assert(rs.subrange(0, rs.len() as int) =~= rs);
-    lemma_growing_lsp(doc, rs, k);
-    if off_is_ancestry(token, rs) {
-        assert forall|i: nat| i < ch.len() implies (#[trigger] nth_parent(token, i) matches Some(a)
-            && ch[i as int] == doc_lsp_range(doc, sp_range(a))) by { }
+    reveal(sel_anc_inv);
+    assert(nth_parent(token, 0) == Some(token));
+    if !in_description(token) {
+        let idx = seq![0nat];
+        assert(rs[0] == anc_range(token, 0));
+        assert(tail_has(rs, 0, anc_range(token, 0)));
+        assert(off_picks(token, rs, 0, idx, 0, 0));
     }
 }
-/// invariant of the ancestor loop (kept opaque in the loop, unfolded in the three lemmas below): after `idx` ancestors
-/// were appended to the `init_len` initial ranges
-#[verifier::opaque]
-pub open spec fn chain_inv(doc: &LuaDocument, token: Syn, anc: Seq<Syn>, rs: Seq<TextRange>, k: int, idx: int, init_len: int) -> bool {
-    &&& rs.len() == init_len + idx
-    &&& k == (if in_description(token) { init_len } else { 0 })
-    &&& (!in_description(token) ==> init_len == 1 && off_is_ancestry(token, rs))
-    &&& (idx > 0 ==> rs.len() > 0 && rs.last() == sp_range(anc[idx - 1]))
-    &&& off_growing_from(doc, rs, k)
-}
-pub proof fn lemma_anc_init(doc: &LuaDocument, token: Syn, anc: Seq<Syn>, rs: Seq<TextRange>)
-    requires
-        sp_tree(token) == sp_doc_id(doc),
-        forall|i: int| 0 <= i < rs.len() ==> range_in_doc(doc, #[trigger] rs[i]),
-        !in_description(token) ==> rs =~= seq![sp_range(token)],
-    ensures chain_inv(doc, token, anc, rs, if in_description(token) { rs.len() as int } else { 0 }, 0, rs.len() as int),
+/// a round that appends nothing (the ancestor spans the same text as the last entry): the last entry now also stands
+/// for ancestor n + 1
+pub proof fn lemma_step_skip(token: Syn, rs: Seq<TextRange>, p: int, idx: Seq<nat>, lo: nat, n: nat)
+    requires off_picks(token, rs, p, idx, lo, n), rs.last() == anc_range(token, n + 1), nth_parent(token, n + 1) is Some,
+    ensures off_picks(token, rs, p, idx, lo, n + 1),
 {
-    reveal(chain_inv);
-    axiom_range_in_doc(doc, token);
+    assert forall|m: nat| lo <= m <= n + 1 implies tail_has(rs, p, #[trigger] anc_range(token, m)) by {
+        if m == n + 1 { assert(rs[rs.len() - 1] == anc_range(token, m)); }
+        else { assert(tail_has(rs, p, anc_range(token, m))); }
+    }
+}
+/// a round that appends the range of ancestor n + 1
+pub proof fn lemma_step_push(token: Syn, rs: Seq<TextRange>, p: int, idx: Seq<nat>, lo: nat, n: nat)
+    requires off_picks(token, rs, p, idx, lo, n), nth_parent(token, n + 1) is Some,
+    ensures off_picks(token, rs.push(anc_range(token, n + 1)), p, idx.push(n + 1), lo, n + 1),
+{
+    let r = anc_range(token, n + 1);
+    let rs2 = rs.push(r);
+    let idx2 = idx.push(n + 1);
+    assert forall|i: int| 0 <= i < idx2.len() implies lo <= #[trigger] idx2[i] <= n + 1 && nth_parent(token, idx2[i]) is Some
+        && rs2[p + i] == anc_range(token, idx2[i]) by {
+        if i < idx.len() { assert(idx2[i] == idx[i]); assert(rs2[p + i] == rs[p + i]); }
+    }
+    assert forall|i: int, j: int| 0 <= i < j < idx2.len() implies #[trigger] idx2[i] < #[trigger] idx2[j] by {
+        assert(idx2[i] == idx[i]);
+        if j < idx.len() { assert(idx2[j] == idx[j]); }
+    }
+    assert(idx2[0] == idx[0]);
+    assert forall|m: nat| lo <= m <= n + 1 implies tail_has(rs2, p, #[trigger] anc_range(token, m)) by {
+        if m == n + 1 { assert(rs2[rs2.len() - 1] == anc_range(token, m)); }
+        else {
+            assert(tail_has(rs, p, anc_range(token, m)));
+            let i = choose|i: int| p <= i < rs.len() && #[trigger] rs[i] == anc_range(token, m);
+            assert(rs2[i] == rs[i]);
+        }
+    }
+}
+/// appending a range that contains the last entry and differs from it keeps containment and strictness
+pub proof fn lemma_step_links(rs: Seq<TextRange>, p: int, r: TextRange)
+    requires off_inside_from(rs, p), off_differ_from(rs, p), rs.len() > 0, off_inside(rs.last(), r), rs.last() != r,
+    ensures off_inside_from(rs.push(r), p), off_differ_from(rs.push(r), p),
+{
+    let rs2 = rs.push(r);
+    assert forall|i: int| 0 <= p <= i && i + 1 < rs2.len() implies off_inside(#[trigger] rs2[i], rs2[i + 1]) && rs2[i] != rs2[i + 1] by {
+        if i + 1 < rs.len() { assert(rs2[i] == rs[i] && rs2[i + 1] == rs[i + 1]); }
+        else { assert(rs2[i] == rs.last() && rs2[i + 1] == r); }
+    }
+}
+/// one round of the ancestor loop keeps the three invariants (ancestry, containment, strictness)
+pub proof fn lemma_anc_step(doc: &LuaDocument, token: Syn, anc: Seq<Syn>, rs: Seq<TextRange>, p: int, idx: Seq<nat>, n: nat)
+    requires
+        sp_tree(token) == sp_doc_id(doc), ancestor_chain(token, anc), n < anc.len(),
+        0 <= p, !in_description(token) ==> p == 0,
+        all_in_doc(doc, rs),
+        sel_anc_inv(token, rs, p, idx, n), off_inside_from(rs, p), off_differ_from(rs, p),
+    ensures ({
+        let st = anc_step(token, sp_range(anc[n as int]), rs, p, idx, n);
+        &&& 0 <= st.1 && (!in_description(token) ==> st.1 == 0)
+        &&& all_in_doc(doc, st.0)
+        &&& sel_anc_inv(token, st.0, st.1, st.2, n + 1)
+        &&& off_inside_from(st.0, st.1)
+        &&& off_differ_from(st.0, st.1)
+    }),
+{
+    reveal(sel_anc_inv);
+    let lo = sel_lo(token);
+    let r = sp_range(anc[n as int]);
+    let st = anc_step(token, r, rs, p, idx, n);
+    let (rs2, p2, idx2) = st;
+    let skip = rs.len() > 0 && rs.last() == r;
+    lemma_chain(token, anc, n as int);
+    axiom_range_in_doc(doc, anc[n as int]);
     assert(nth_parent(token, 0) == Some(token));
-}
-pub proof fn lemma_anc_step(doc: &LuaDocument, token: Syn, anc: Seq<Syn>, rs: Seq<TextRange>, k: int, idx: int, init_len: int)
-    requires
-        sp_tree(token) == sp_doc_id(doc), ancestor_chain(token, anc), 0 <= idx < anc.len(),
-        chain_inv(doc, token, anc, rs, k, idx, init_len),
-    ensures chain_inv(doc, token, anc, rs.push(sp_range(anc[idx])), k, idx + 1, init_len),
-{
-    reveal(chain_inv);
-    lemma_chain(token, anc, idx);
-    axiom_range_in_doc(doc, anc[idx]);
-    let rs2 = rs.push(sp_range(anc[idx]));
+    assert(r == anc_range(token, n + 1));
     assert forall|i: int| 0 <= i < rs2.len() implies range_in_doc(doc, #[trigger] rs2[i]) by {
         if i < rs.len() { assert(rs2[i] == rs[i]); }
     }
-    assert forall|i: int| 0 <= k <= i && i + 1 < rs2.len() implies off_inside(#[trigger] rs2[i], rs2[i + 1]) by {
-        if i + 1 < rs.len() {
-            assert(rs2[i] == rs[i] && rs2[i + 1] == rs[i + 1]);
-        } else {
-            // the link to the ancestor just appended: its predecessor is the previous ancestor, or (outside a description)
-            // the token itself
-            if idx == 0 { assert(!in_description(token)); assert(nth_parent(token, 0) == Some(token)); assert(rs[0] == sp_range(token)); }
+    if n + 1 == lo {
+        // the first ancestor inside a description: the ancestry starts at the last entry (just pushed, or equal to it)
+        assert(rs2.last() == r);
+        assert(rs2[p2 + 0] == anc_range(token, idx2[0]));
+        assert(tail_has(rs2, p2, anc_range(token, n + 1)));
+        assert(off_picks(token, rs2, p2, idx2, lo, n + 1));
+    } else if skip {
+        lemma_step_skip(token, rs, p, idx, lo, n);
+    } else {
+        // the range just pushed contains the last entry (= the range of ancestor n) and differs from it
+        assert(off_picks(token, rs, p, idx, lo, n));
+        assert(rs.last() == anc_range(token, n));
+        assert(anc_range(token, n) == sp_range(if n == 0 { token } else { anc[n - 1] })) by {
+            if n > 0 { assert(nth_parent(token, ((n - 1) + 1) as nat) == Some(anc[n - 1])); }
         }
-    }
-    if !in_description(token) {
-        assert forall|i: nat| i < rs2.len() implies (#[trigger] nth_parent(token, i) matches Some(a) && rs2[i as int] == sp_range(a)) by {
-            if i < rs.len() { assert(rs2[i as int] == rs[i as int]); }
-        }
+        lemma_step_push(token, rs, p, idx, lo, n);
+        lemma_step_links(rs, p, r);
     }
 }
-pub proof fn lemma_anc_done(doc: &LuaDocument, token: Syn, anc: Seq<Syn>, rs: Seq<TextRange>, k: int, init_len: int)
-    requires ancestor_chain(token, anc), chain_inv(doc, token, anc, rs, k, anc.len() as int, init_len),
-    ensures
-        rs.len() == init_len + sp_depth(token), off_growing_from(doc, rs, k),
-        k == (if in_description(token) { init_len } else { 0 }),
-        !in_description(token) ==> init_len == 1 && off_is_ancestry(token, rs),
+/// the finished ancestor loop: the ancestry starts inside the chain (so the chain is not empty)
+pub proof fn lemma_anc_done(token: Syn, rs: Seq<TextRange>, p: int, idx: Seq<nat>)
+    requires sel_anc_inv(token, rs, p, idx, sp_depth(token)), sp_depth(token) >= sel_lo(token),
+    ensures 0 <= p < rs.len(),
 {
-    reveal(chain_inv);
+    reveal(sel_anc_inv);
+}
+/// LSP images of a chain of text ranges: from p on parents contain their children (monotone positions) and differ from
+/// them (injective positions)
+pub proof fn lemma_strict_lsp(doc: &LuaDocument, rs: Seq<TextRange>, p: int)
+    requires sp_doc_ok(doc), all_in_doc(doc, rs), off_inside_from(rs, p), off_differ_from(rs, p),
+    ensures growing_from(lsp_seq(doc, rs), p), strictly_growing_from(lsp_seq(doc, rs), p),
+{
+    reveal(growing_from);
+    reveal(strictly_growing_from);
+    let ch = lsp_seq(doc, rs);
+    assert forall|i: int| 0 <= p <= i && i + 1 < ch.len() implies lsp_inside(#[trigger] ch[i], ch[i + 1]) && ch[i] != ch[i + 1] by {
+        assert(range_in_doc(doc, rs[i]) && range_in_doc(doc, rs[i + 1]));
+        assert(off_inside(rs[i], rs[i + 1]) && rs[i] != rs[i + 1]);
+        lemma_inside_lsp(doc, rs[i], rs[i + 1]);
+        if ch[i] == ch[i + 1] { lemma_lsp_injective(doc, rs[i], rs[i + 1]); }
+    }
+}
+/// LSP images of the collected ancestry: the ancestry of the token as the property states it
+pub proof fn lemma_ancestry_lsp(doc: &LuaDocument, token: Syn, rs: Seq<TextRange>, p: int, idx: Seq<nat>, lo: nat, tail: Seq<lsp_types::Range>)
+    requires
+        off_picks(token, rs, p, idx, lo, sp_depth(token)),
+        tail.len() == rs.len() - p,
+        forall|i: int| 0 <= i < tail.len() ==> #[trigger] tail[i] == doc_lsp_range(doc, rs[p + i]),
+    ensures is_ancestry(doc, token, tail, lo),
+{
+    reveal(is_ancestry);
+    let d = sp_depth(token);
+    assert forall|i: int| 0 <= i < tail.len() implies lo <= #[trigger] idx[i] <= d && nth_parent(token, idx[i]) is Some
+        && tail[i] == anc_lsp(doc, token, idx[i]) by {
+        assert(rs[p + i] == anc_range(token, idx[i]));
+        assert(tail[i] == doc_lsp_range(doc, rs[p + i]));
+    }
+    assert(lsp_picks(doc, token, tail, idx, lo));
+    assert(tail[0] == anc_lsp(doc, token, lo)) by { assert(rs[p + 0] == anc_range(token, idx[0])); }
+    assert(tail.last() == anc_lsp(doc, token, d)) by {
+        assert(tail[tail.len() - 1] == doc_lsp_range(doc, rs[p + (tail.len() - 1)]));
+    }
+    assert forall|m: nat| lo <= m <= d implies tail.contains(#[trigger] anc_lsp(doc, token, m)) by {
+        assert(tail_has(rs, p, anc_range(token, m)));
+        let i = choose|i: int| p <= i < rs.len() && #[trigger] rs[i] == anc_range(token, m);
+        assert(tail[i - p] == doc_lsp_range(doc, rs[p + (i - p)]));
+        assert(tail[i - p] == anc_lsp(doc, token, m));
+    }
+}
+/// the finished chain: LSP images of the text-range chain. From p on: the ancestry of the token, strictly growing
+pub proof fn lemma_sel_done(doc: &LuaDocument, token: Syn, rs: Seq<TextRange>, p: int, idx: Seq<nat>, ch: Seq<lsp_types::Range>)
+    requires
+        sp_doc_ok(doc), all_in_doc(doc, rs), sp_depth(token) >= sel_lo(token),
+        sel_anc_inv(token, rs, p, idx, sp_depth(token)), off_inside_from(rs, p), off_differ_from(rs, p),
+        ch == lsp_seq(doc, rs.subrange(0, rs.len() as int)),
+    ensures
+        ch.len() == rs.len(), 0 <= p < ch.len(),
+        growing_from(ch, p),
+        strictly_growing_from(ch, p),
+        is_ancestry(doc, token, ch.subrange(p, ch.len() as int), sel_lo(token)),
+        p == 0 ==> is_ancestry(doc, token, ch, sel_lo(token)),
+{
+    assert(rs.subrange(0, rs.len() as int) =~= rs);
+    lemma_strict_lsp(doc, rs, p);
+    lemma_anc_done(token, rs, p, idx);
+    assert(off_picks(token, rs, p, idx, sel_lo(token), sp_depth(token))) by { reveal(sel_anc_inv); }
+    let tail = ch.subrange(p, ch.len() as int);
+    lemma_ancestry_lsp(doc, token, rs, p, idx, sel_lo(token), tail);
+    if p == 0 { assert(tail =~= ch); }
 }
